@@ -30,7 +30,7 @@ class C06(object):
     exhaustive = {}
 
     def gen(self, rng, tier):
-        n_cases = 240 if tier == 'quick' else 5000
+        n_cases = 240 if tier == 'quick' else 25000
         for _ in range(n_cases):
             kind = rng.choice(['pair', 'pair', 'pair', 'jsd', 'restricted', 'maxcorr', 'lautum', 'emd'])
             klass = rng.choice(['str', 'tuple', 'mixed'])
